@@ -88,9 +88,22 @@ func decodeTrieCase(in []int64, c06 bool) (tc trieCase, ok bool) {
 
 func (tc *trieCase) trie() *algz.Trie {
 	t := &algz.Trie{}
-	for _, o := range tc.ops {
+	for i, o := range tc.ops {
 		if o.build {
 			t.BuildFailureLinks()
+			if i < len(tc.ops)-1 {
+				// a build that is not the last operation: the trie is queried with the case's own text before it is
+				// extended and built again; queries are observations and must not change any later answer
+				func() {
+					defer func() { _ = recover() }()
+					text := string(tc.text)
+					_ = t.Match(text)
+					_ = t.FindAll(text)
+					_ = t.Replace(text, "*")
+					_ = t.ReplaceWithMask(text, '*')
+					_ = t.PrefixSearch(text)
+				}()
+			}
 		} else {
 			t.Insert(string(o.pat))
 		}
